@@ -3,6 +3,7 @@ package props
 import (
 	"context"
 	"fmt"
+	"reflect"
 	"sort"
 	"strings"
 
@@ -27,7 +28,7 @@ var c20 = core.Register(&core.Prop{
 	Shards: func(tier string) int { return pickTier(tier, 8, 16) },
 	Floors: func(c map[string]int64, tier string) []string {
 		var out []string
-		for _, k := range []string{"histories", "op:setthis", "op:setthis-nil", "op:setvalue", "op:resolve", "op:set", "op:get", "resolve_on_unset_map", "caller_map_comparisons", "locals_survived_evaluations", "locals_dropped_by_setthis", "untouched_entries_compared", "storm_comparisons", "stability_cases"} {
+		for _, k := range []string{"histories", "op:setthis", "op:setthis-nil", "op:setvalue", "op:resolve", "op:set", "op:get", "resolve_on_unset_map", "caller_map_comparisons", "locals_survived_evaluations", "locals_dropped_by_setthis", "untouched_entries_compared", "storm_comparisons", "stability_cases", "self_binding_histories"} {
 			if c[k] == 0 {
 				out = append(out, "coverage floor: no "+k)
 			}
@@ -225,7 +226,7 @@ var c20Hist = core.Mon(c20, "history-replay", func(w *core.W, h *HistCase) {
 					hadLocal = true
 				}
 			}
-			ev := &refEval{Store: st, Assigned: touched}
+			ev := &refEval{Store: st, Assigned: touched, Self: true, ThisNull: unset}
 			mv, merr := ev.eval(pr.Tree)
 			if merr == errUnspec {
 				w.Skip("outside-sub-language")
@@ -277,6 +278,9 @@ var c20Hist = core.Mon(c20, "history-replay", func(w *core.W, h *HistCase) {
 				if !had || touched[k] {
 					continue
 				}
+				if gm, isMap := v.(map[string]interface{}); isMap && reflect.ValueOf(gm).Pointer() == reflect.ValueOf(g).Pointer() {
+					continue // the map bound to a local of itself renders whatever the map holds now
+				}
 				w.Count("untouched_entries_compared")
 				if now := obs.SnapshotValues(v); now != old {
 					bad(i, "stored-value-changed-in-place", clipS(old, 200), clipS(now, 200), fmt.Sprintf("entry %q of caller-held map M%d was neither set nor assigned by this operation, yet its exact representation changed", k, mi))
@@ -317,6 +321,11 @@ func diffStore(model map[string]MV, got map[string]interface{}) string {
 			return fmt.Sprintf("unexpected key %q = %s", k, show(gv))
 		case !inGot:
 			return fmt.Sprintf("missing key %q (model: %s)", k, mv)
+		case mv.K == "self":
+			// the entry is the data map itself (after `$s = this`): the very same map, not a copy
+			if gm, ok := gv.(map[string]interface{}); !ok || reflect.ValueOf(gm).Pointer() != reflect.ValueOf(got).Pointer() {
+				return fmt.Sprintf("key %q should be the data map itself (bound by `%s = this`), it is %s", k, k, clipS(show(gv), 80))
+			}
 		case !mvMatches(mv, gv):
 			return fmt.Sprintf("key %q = %s, model says %s", k, show(gv), mv)
 		}
@@ -362,8 +371,35 @@ func runC20(w *core.W) {
 		}
 	}
 	w.ExhaustivePart(fmt.Sprintf("all histories of 1..%d operations over 16 operation instances", nmax))
+	// the data map bound to a local of itself: reads through the local follow every later change of the map
+	selfOps := []HOp{
+		{Op: "setthis", Map: 0}, {Op: "setthis", Map: 1}, {Op: "setthis", Map: -1}, {Op: "setvalue", Key: "x", Val: mvp(mvInt(2))},
+		{Op: "resolve", Src: "($s = this, 1)"}, {Op: "resolve", Src: "[$s.x, $s.$a, $s.$s.x, $s.nothere]"}, {Op: "resolve", Src: "$a = x + 1"}, {Op: "resolve", Src: "$s = 5"}, {Op: "resolve", Src: "[$s!.x]"},
+	}
+	smax := w.Pick(4, 5)
+	for n := 2; n <= smax; n++ {
+		total := gen.Pow(len(selfOps), n)
+		for i := 0; i < total; i++ {
+			idx++
+			if !w.Mine(idx) {
+				continue
+			}
+			h := &HistCase{Ops: make([]HOp, n)}
+			k := i
+			hasSelf := false
+			for j := n - 1; j >= 0; j-- {
+				h.Ops[j] = selfOps[k%len(selfOps)]
+				hasSelf = hasSelf || k%len(selfOps) == 4
+				k /= len(selfOps)
+			}
+			if hasSelf {
+				c20Hist(w, h)
+				w.Count("self_binding_histories")
+			}
+		}
+	}
 	r := w.RNG("random")
-	g := &subGen{r: r, IntLocals: []string{"$i", "$a", "$b"}, AnyLocals: []string{"$p"}, IntNames: []string{"x", "y", "u"}, AnyNames: []string{"s", "y"}, ThisKeys: []string{"x", "$a", "$i", "u", "s"}}
+	g := &subGen{r: r, IntLocals: []string{"$i", "$a", "$b"}, AnyLocals: []string{"$p"}, IntNames: []string{"x", "y", "u"}, AnyNames: []string{"s", "y"}, ThisKeys: []string{"x", "$a", "$i", "u", "s"}, NoSpread: true}
 	keys := []string{"x", "y", "$a", "$i", "$p", "u", "s"}
 	randValFor := func(key string) *MV {
 		if key == "s" || key == "$p" {
